@@ -80,6 +80,13 @@ func (c *Component) checkpointAcctSession(s *AccountingSession) {
 	if c.opdb == nil || s == nil {
 		return
 	}
+	if s.released.Load() {
+		// The accounting of this session is closed (Stop sent, checkpoint
+		// deleted). A late Accounting-Response for an interim that was
+		// still outstanding must not bring the checkpoint back: after a
+		// restart the ghost entry would be closed with a second Stop.
+		return
+	}
 	cp := &AccountingCheckpoint{
 		SessionID:       s.sessionID,
 		AcctSessionID:   s.acctSessionID,
@@ -125,6 +132,16 @@ func (c *Component) checkpointAcctSession(s *AccountingSession) {
 		if err := c.opdb.Put(c.Ctx, opdb.NamespaceAcctSessions, s.sessionID, data); err != nil {
 			c.logger.Warn("Failed to checkpoint acct session",
 				"session_id", s.sessionID, "error", err)
+		}
+		// The session may have been released while this write was on its
+		// way (released was still false above). Whoever comes last removes
+		// the row: the releaser's delete if it runs after this write, or
+		// this delete if the write landed after the releaser's.
+		if s.released.Load() {
+			if err := c.opdb.Delete(c.Ctx, opdb.NamespaceAcctSessions, s.sessionID); err != nil {
+				c.logger.Debug("Failed to delete acct checkpoint of released session",
+					"session_id", s.sessionID, "error", err)
+			}
 		}
 	}()
 }
@@ -234,6 +251,7 @@ func (c *Component) pruneOrphanedAcctEntries(now time.Time) int {
 			continue
 		}
 		delete(c.acctCache, id)
+		s.released.Store(true)
 		pruned++
 		c.deleteAcctCheckpoint(id)
 		// The session did not come back: close its accounting at the
